@@ -33,7 +33,7 @@ def gen_fields(rng, allow_empty=False, names=None):
 
 def gen_case(rng):
     # thread names / ids: the serving thread is named `main`; with U1 the history runs on an unnamed spawned thread
-    cfg = ['json', 't%d' % rng.randrange(2), 'l%d' % rng.randrange(2), 'i%d' % rng.choice([0, 0, 1]), 'n%d' % rng.choice([0, 0, 1]), 'U%d' % rng.randrange(2), 'f0', 'L0', 's0', 'c%d' % rng.randrange(2), 'S%d' % rng.randrange(2), 'F%d' % rng.randrange(2)]
+    cfg = ['json', 't%d' % rng.randrange(2), 'l%d' % rng.randrange(2), 'i%d' % rng.choice([0, 0, 1]), 'n%d' % rng.choice([0, 0, 1]), 'U%d' % rng.randrange(2), 'f0', 'L0', 's0', 'c%d' % rng.randrange(2), 'S%d' % rng.randrange(2), 'F%d' % rng.randrange(2), 'P%d' % (1 if rng.random() < 0.25 else 0)]
     ops = []; nsp = 0; stack = []; declared = {}
     for _ in range(rng.choice([3, 7, 14])):
         r = rng.random()
@@ -52,6 +52,20 @@ def gen_case(rng):
             k = stack.pop(); ops.append('ex %d' % k); ops.append('cl %d' % k)
     ops.append('ev 3 0 %s' % gen_fields(rng))
     return ' '.join(cfg) + ' ;; S1 ;; ' + ' ; '.join(ops)
+
+def model_case(case):
+    """`P1`: the formatter sits behind a per-layer filter (INFO): spans and events above INFO — and everything done to such
+    spans — do not exist for it"""
+    cfg, w, opsS = case.split(' ;; ')
+    if 'P1' not in cfg.split(): return case
+    hidden = set(); out = []
+    for op in opsS.split(' ; '):
+        t = op.split()
+        if t[0] == 'ev' and int(t[1]) > 3: out.append('nop')
+        elif t[0] == 'sp' and int(t[2]) > 3: hidden.add(t[1]); out.append('nop')
+        elif t[0] in ('en', 'ex', 'cl', 'rc') and t[1] in hidden: out.append('nop')
+        else: out.append(op)
+    return cfg + ' ;; ' + w + ' ;; ' + ' ; '.join(out)
 
 def gen(rng, tier):
     n = 2000 if tier == 'quick' else 40000
@@ -136,6 +150,7 @@ def classify(stream, case, out):
 
 _s = Stream('json', 'h_fmt', gen=gen, nontrivial=nontrivial, canon=canon)
 _s.py_judge = judge
+_s.model_case = model_case
 
 def extra(tier, seed, rng, res, broken):
     """several threads record one field each on ONE span at the same moment: a JSON record emitted inside the span afterwards
